@@ -209,4 +209,11 @@ theorem C15_flipper_text (opts : Opts) (fs : FS) (file : Option Path) (t : Str) 
       compile { opts with flipper := true } fs file (.text t) = compile opts fs file (.text t) :=
   C15_flipper_whole opts fs file (.text t) (prepare_text_nbq t)
 
+/-- **entry forms**: compiling a text given as one string is compiling the list of its lines (cut at the line feeds, nothing else) — with
+    the same options, file system and file — so whatever holds of one input form holds of the other -/
+theorem C15_text_is_lines (opts : Opts) (fs : FS) (file : Option Path) (t : Str) :
+    compile opts fs file (.text t) = compile opts fs file (.lines (splitChar '\n' t)) := by
+  unfold compile prepare
+  rfl
+
 end Duckling.Props.C15
